@@ -205,12 +205,15 @@ P_ErrDrain(c, g, res) == (ErrIdxP(c) > 0 /\ DrainsP(c) /\ res = "ok" /\ c.RDInit
                            => /\ {g[i].fill : i \in OkIdx(g)} = 1..(ErrIdxP(c) - 1)
                               /\ \E i \in 1..Len(g) : g[i].t = "err"
                               /\ g # <<>> /\ g[Len(g)].t = "end"
-P_InitFailuresSurface(c, res) ==
+\* nd: the number of dataset_init calls that were made. (A reader thread that is finished before the calling thread has
+\* provided all queue_len sets makes its send fail and the loop stop: fewer than queue_len + 1 sets are then created - found
+\* by TLC at queue_len = 3 with an empty input - and a closure that would have failed at a later call is never called.)
+P_InitFailuresSurface(c, res, nd) ==
   /\ res \notin {"panic", "hang"}
   /\ (c.RInitFail /\ res \notin {"err_dinit"} => res = "err_rinit")
   /\ (res = "err_rinit" => c.RInitFail)
-  /\ (res = "err_dinit" => c.DInitFailAt > 0 /\ c.DInitFailAt <= c.Q + 1)
-  /\ (c.DInitFailAt > 0 /\ c.DInitFailAt <= c.Q + 1 /\ ~c.RInitFail => res = "err_dinit")
+  /\ (res = "err_dinit" => c.DInitFailAt > 0 /\ c.DInitFailAt <= nd)
+  /\ (c.DInitFailAt > 0 /\ c.DInitFailAt <= nd /\ ~c.RInitFail => res = "err_dinit")
 P_ClosedOnlyAfterInitFailure(c, g) == (\E i \in 1..Len(g) : g[i].t = "closed") => c.RInitFail
 \* C16
 P_BoundedSets(c, nd) == nd <= c.Q + 1
@@ -229,7 +232,7 @@ SetsAreWhatReaderProduced == \A i \in OkItems : Len(got[i].recs) = cfg.Sizes[got
 ErrOnce == P_ErrOnce(cfg, got)
 ErrNoLater == P_ErrNoLater(cfg, got)
 ErrDrain == Terminated => P_ErrDrain(cfg, got, result)
-InitFailuresSurface == Terminated => P_InitFailuresSurface(cfg, result)
+InitFailuresSurface == Terminated => P_InitFailuresSurface(cfg, result, nds)
 PerRecordErrorsReturned ==
   Terminated /\ cfg.PerRecord => /\ (result = "err_read" => ErrIdxP(cfg) > 0 /\ got[Len(got)].t = "err")
                                  /\ (result = "err_rdinit" => cfg.RDInitFailAt > 0)
